@@ -197,6 +197,7 @@ def run(a, prop, modname, shards, cases, seconds, work, t0):
     envinfo = None
     clock_calls = 0
     more = {}
+    cov = {}
     for status, r, so in results:
         if r is None:
             inconclusive.append(f'shard died ({status}): {so[-400:]}')
@@ -221,6 +222,8 @@ def run(a, prop, modname, shards, cases, seconds, work, t0):
         inconclusive += r.get('inconclusive', [])
         if r.get('env'):
             envinfo = r['env']
+        for f_, ls in (r.get('cover') or {}).items():
+            cov.setdefault(f_, set()).update(ls)
         for v in r['violations']:
             if v['key'] in open_keys:
                 known_hits[v['key']] = known_hits.get(v['key'], 0) + 1
@@ -261,6 +264,18 @@ def run(a, prop, modname, shards, cases, seconds, work, t0):
         lines.append(f'violation: key={key} ({origin}) {msg}'[:600])
         lines.append(f'VIOLATION property={prop} replay={path}')
 
+    reach = {}
+    try:
+        from vf import cover
+        files = []
+        with open(os.path.join(HERE, 'properties.jsonl')) as f:
+            for ln in f:
+                pj = json.loads(ln)
+                if pj['id'] == prop:
+                    files = [x.split('src/pjplan/', 1)[1] for x in pj.get('anchors', {}).get('files', []) if 'src/pjplan/' in x]
+        reach = cover.summarize(os.path.join(REPO_SRC, 'pjplan'), {k: sorted(v) for k, v in cov.items()}, files)
+    except Exception as e:  # informational only
+        reach = {'error': f'{type(e).__name__}: {e}'}
     wall = time.time() - t0
     ev = {
         'property_id': prop, 'tier': a.tier, 'seed': a.seed, 'level': mod_meta.get('level', 'exploration'),
@@ -278,6 +293,7 @@ def run(a, prop, modname, shards, cases, seconds, work, t0):
             'directed_witnesses': len(dentries),
             'inconclusive': inconclusive,
             'code_under_observation': envinfo,
+            'reach_in_anchor_files': reach,
             'unknown_violation_keys': sorted(seen_keys),
         },
         'assumptions': mod_meta.get('assumptions', []),
